@@ -171,6 +171,34 @@ def ertm_sequence_wrap(n: int, window: int, mps: int) -> bool:
 _MODES = [l2cap.TransmissionMode.BASIC, l2cap.TransmissionMode.ENHANCED_RETRANSMISSION]
 
 
+@harness(pre=['1 <= window <= 2 and 1 <= na <= 6 and 1 <= nb <= 6 and 0 <= s1 <= 1 and 0 <= s2 <= 1'], family='ertm', twin=True, kernels=K, timeout=(120, 400), grid={'mps': [2, 3]},
+         bounds='both ERTM processors of a channel write an SDU at the same moment (lengths 1..6 symbolic, window 1..2, first delivery choices symbolic): each SDU reaches the other side once and intact, each side never has more than `window` unacknowledged I-frames of ITS OWN')
+def ertm_both_directions_at_once(window: int, na: int, nb: int, s1: int, s2: int, mps: int) -> bool:
+    window, na, nb = C(window, 1, 2), C(na, 1, 6), C(nb, 1, 6)
+    with detloop.running() as loop:
+        spec = l2cap.ClassicChannelSpec(psm=0x1001, mode=l2cap.TransmissionMode.ENHANCED_RETRANSMISSION)
+        a, b = _Chan(spec), _Chan(spec)
+        pa = l2cap.EnhancedRetransmissionProcessor(a, peer_tx_window_size=window, peer_mps=mps)
+        pb = l2cap.EnhancedRetransmissionProcessor(b, peer_tx_window_size=window, peer_mps=mps)
+        sdu_a, sdu_b = bytes(range(1, na + 1)), bytes(range(101, 101 + nb))
+        pa.send_sdu(sdu_a)
+        pb.send_sdu(sdu_b)
+        ia = ib = 0
+        for s in [s1, s2] + [0, 1] * 200:
+            if (s == 0 or ib >= len(b.out)) and ia < len(a.out):
+                f = a.out[ia]
+                ia += 1
+                pb.on_pdu(f)
+            elif ib < len(b.out):
+                f = b.out[ib]
+                ib += 1
+                pa.on_pdu(f)
+            else:
+                break
+            loop.run_ready()
+        return b.sdus == [sdu_a] and a.sdus == [sdu_b] and not pa._pending_pdus and not pb._pending_pdus
+
+
 def _setup(loop, mode_a, fcs_a, mode_b, fcs_b, mtu_a, mtu_b, b_supports_fcs=True):
     F = l2cap.L2CAP_Information_Request.ExtendedFeatures
     w = Wire(handles=(1,), features=(None, None if b_supports_fcs else (F.FIXED_CHANNELS, F.ENHANCED_RETRANSMISSION_MODE)))
@@ -183,7 +211,7 @@ def _setup(loop, mode_a, fcs_a, mode_b, fcs_b, mtu_a, mtu_b, b_supports_fcs=True
 
 @harness(pre=['0 <= mode_a <= 1 and 0 <= mode_b <= 1 and 0 <= fcs_a <= 1 and 0 <= fcs_b <= 1 and 1 <= n <= 3 and 0 <= dirn <= 1'], family='setup', twin=True, kernels=K_SETUP, timeout=(120, 400),
          grid={'mtu_a': [48, 672], 'mtu_b': [672]},
-         bounds='two classic channels set up through real managers for every pair of (mode in {Basic, ERTM}) x (FCS on/off) on each side (symbolic): both ends finish OPEN in the same mode, or the open fails and both ends hold no open channel; then 1..3 SDUs sent in either direction arrive once, in order, byte-identical (no stray FCS bytes, none cut)')
+         bounds='two classic channels set up through real managers for every pair of (mode in {Basic, ERTM}) x (FCS on/off) on each side (symbolic): both ends finish OPEN in the same mode, or the open fails and neither end keeps a channel (open or half-open) in its table; then 1..3 SDUs sent in either direction arrive once, in order, byte-identical (no stray FCS bytes, none cut)')
 def classic_setup_and_data(mode_a: int, mode_b: int, fcs_a: int, fcs_b: int, n: int, dirn: int, mtu_a: int, mtu_b: int) -> bool:
     mode_a, mode_b, fcs_a, fcs_b, n, dirn = C(mode_a, 0, 1), C(mode_b, 0, 1), C(fcs_a, 0, 1), C(fcs_b, 0, 1), C(n, 1, 3), C(dirn, 0, 1)
     with untraced():
@@ -192,8 +220,9 @@ def classic_setup_and_data(mode_a: int, mode_b: int, fcs_a: int, fcs_b: int, n: 
             if not ok or not t.done():
                 return False
             if t.exception() is not None:
-                # both ends closed: no OPEN channel on either side
-                return not any(ch.state == ch.State.OPEN for m in w.mgr for chans in m.channels.values() for ch in chans.values())
+                # both ends closed: neither side keeps the channel (in whatever state) in its table
+                w.pump(loop)
+                return not any(chans for m in w.mgr for chans in m.channels.values())
             a = t.result()
             if len(accepted) != 1:
                 return False
